@@ -52,7 +52,7 @@ func widen(b []byte) []int32 {
 }
 
 func checkC17(c *Ctx) {
-	c.rule = "byte strings = characters of width 2/3/4 straddling every 4096-byte block boundary at every split offset, boundary sizes, BOM variants, legitimate U+FFFD, every single-byte corruption (overwrite 0x80/0xC0/0xF8/0xFF, delete, truncate) of small valid programs, overlong/surrogate encodings, GBK text; each through FileStream.ReadAll, ByteStream.ReadAll, chunked Read(n) for n in 1..17 and random n, FileStream.ReadAll over a named pipe whose writer pauses at chosen offsets (after the BOM, inside characters), the same marker programs as the SourceCode field of a playground request (raw body bytes), and end-to-end LoadFile+Execute of marker programs, among them valid files with 22 unusual characters (U+0000, controls, U+2028, U+FEFF, noncharacters, …) in a literal / a comment / between statements / at a line start / at the end: rejected as a whole or run completely. and 8 goroutines that load and run different multi-block files (each with a module) at the same time under the race detector. Oracle: unicode/utf8 (Valid + []rune). distinct_nontrivial = distinct (case family, validity, reader mode) x byte-level shape hashes with at least one multi-byte character or corruption"
+	c.rule = "byte strings = characters of width 2/3/4 straddling every 4096-byte block boundary at every split offset, boundary sizes, BOM variants, legitimate U+FFFD, every single-byte corruption (overwrite 0x80/0xC0/0xF8/0xFF, delete, truncate) of small valid programs, overlong/surrogate encodings, GBK text; each through FileStream.ReadAll, ByteStream.ReadAll, chunked Read(n) for n in 1..17 and random n, FileStream.ReadAll over a named pipe whose writer pauses at chosen offsets (after the BOM, inside characters), the same marker programs as the SourceCode field of a playground request (raw body bytes), and end-to-end LoadFile+Execute of marker programs (as the main file and as an imported module: directly, in a sub-directory, behind a relay module), among them valid files with 22 unusual characters (U+0000, controls, U+2028, U+FEFF, noncharacters, …) in a literal / a comment / between statements / at a line start / at the end: rejected as a whole or run completely. and 8 goroutines that load and run different multi-block files (each with a module) at the same time under the race detector. Oracle: unicode/utf8 (Valid + []rune). distinct_nontrivial = distinct (case family, validity, reader mode) x byte-level shape hashes with at least one multi-byte character or corruption"
 	c.assumptions = []string{"Go's unicode/utf8 is the reference decoder", "a leading BOM is judged only for FileStream (source files); ByteStream may keep or drop it"}
 	rng := c.Rand("c17")
 	cases := []c17Case{}
@@ -343,6 +343,55 @@ func checkC17(c *Ctx) {
 			c.Violation(key, fmt.Sprintf("file %s is not valid UTF-8 but reached the evaluator: %s", e.name, resp.Err.Msg), rp)
 		}
 	})
+	// the same files as imported modules: directly, in a sub-directory, and behind a valid relay
+	// module. Imports run before the importer's statements, so a module that is not valid UTF-8 means
+	// that nothing at all is displayed and the run ends with an error; a valid one runs completely.
+	{
+		type me struct {
+			e     e2e
+			shape string
+		}
+		mes := []me{}
+		mreqs := []Req{}
+		for _, e := range e2es {
+			if _, ok := special[e.name]; ok {
+				continue
+			}
+			for _, shape := range []string{"direct", "subdir", "relay"} {
+				var fl []File
+				switch shape {
+				case "direct":
+					fl = []File{{Path: "main.zn", Data: widen([]byte("导入“模块”\n（显示：“MAIN”）\n"))}, {Path: "模块.zn", Data: widen(e.data)}}
+				case "subdir":
+					fl = []File{{Path: "main.zn", Data: widen([]byte("导入“库-模块”\n（显示：“MAIN”）\n"))}, {Path: "库/模块.zn", Data: widen(e.data)}}
+				default:
+					fl = []File{{Path: "main.zn", Data: widen([]byte("导入“中转”\n（显示：“MAIN”）\n"))}, {Path: "中转.zn", Data: widen([]byte("导入“模块”\n（显示：“RELAY”）\n"))}, {Path: "模块.zn", Data: widen(e.data)}}
+				}
+				mes = append(mes, me{e, shape})
+				mreqs = append(mreqs, Req{Op: "exec", Main: "main.zn", Files: fl, EvalBudget: 100000})
+			}
+		}
+		c.runBatches(mreqs, 8, func(i int, req *Req, resp *Resp) {
+			c.Eval()
+			m := mes[i]
+			valid := utf8.Valid(m.e.data)
+			c.Nontrivial("module|" + m.shape + "|" + m.e.name)
+			c.Count("module_files_checked", 1)
+			shown := strings.Count(resp.Display, "M") - strings.Count(resp.Display, "MAIN")
+			mainShown := strings.Contains(resp.Display, "MAIN")
+			key := "module:" + m.shape + ":" + m.e.name
+			rp := map[string]interface{}{"req": req, "case": m.e.name, "shape": m.shape}
+			if valid {
+				if resp.Kind != "value" || shown != m.e.markers || !mainShown {
+					c.Violation(key, fmt.Sprintf("valid module file %s imported (%s): outcome %s, %d of %d module markers, main ran: %v", m.e.name, m.shape, resp.Kind, shown, m.e.markers, mainShown), rp)
+				}
+				return
+			}
+			if resp.Kind != "error" || shown != 0 || mainShown || strings.Contains(resp.Display, "RELAY") {
+				c.Violation(key, fmt.Sprintf("module file %s is not valid UTF-8 but the program that imports it (%s) was executed: outcome %s, %d of %d module markers displayed, importer ran: %v\ndisplay: %q", m.e.name, m.shape, resp.Kind, shown, m.e.markers, mainShown, clip(resp.Display, 200)), rp)
+			}
+		})
+	}
 	// the other way a source reaches the interpreter: the SourceCode field of a playground request.
 	// A body whose bytes are not valid UTF-8 must not be executed as a silently altered program.
 	jsonEsc := func(b []byte) []byte {
